@@ -276,7 +276,7 @@ def validate_transcribed(report, shape, transcribed_traces, label, cids=None, ro
             with open(cfg, "w", encoding="utf-8") as out:
                 out.write("INIT TInit\nNEXT TNext\nCONSTANTS\n  NFields = %d\n  Checks <- TrChecks\n  Header = %d\n"
                           "  Tables <- NoTables\n  Modes <- NoModes\n  Limits <- NoModes\n  Apis <- NoModes\n  Ends <- NoModes\n"
-                          "  Writers = TRUE\n  MaxOps = 0\n  ResetOnOpen = TRUE\n  RegisterOnReach = %s\n"
+                          "  Writers = TRUE\n  MaxOps = 0\n  ResetOnOpen = TRUE\n  ResetOnStart = TRUE\n  Parking = FALSE\n  RegisterOnReach = %s\n"
                           "  EndChecksOnError = FALSE\n  LogCalls = FALSE\nINVARIANT Progress\nCHECK_DEADLOCK FALSE\n"
                           % (shape["nfields"], shape["header"], ror))
             result = core.tlc(module, cfg, env={"TRACE_FILE": trace_file}, coverage=False, tag="tracetlc", workers=8)
